@@ -541,3 +541,31 @@ def _c08(work, v, tier, seed):
 
 
 PIPELINES["C08"] = _c08
+
+
+def markov_account(v, trace, res):
+    simple_account(v, trace, res, "markov", "Trace_Markov", key=lambda e: {"model": e["model"], "p": e["p"], "pi": e["pi"] if len(e["pi"]) == 4 or e["model"] in ("jc", "k2p") else (e["pi"] if not e.get("_model_pi") else [])},
+                   sample=lambda e: {"model": e["model"], "parameters": e["p"], "frequencies": e["pi"][:4], "branch_lengths": e.get("ts"), "outcome": e["kind"]},
+                   describe=lambda e: {"model": e["model"], "p": e["p"], "pi": e["pi"][:4], "reused_object": e.get("reused"), "msg": e.get("msg", "")})
+
+
+def _c18(work, v, tier, seed):
+    vf.build_driver(work)
+    cfg = write_cfg(work, "Gen_Markov_%s.cfg" % tier, spec=None, invariants=["Emit"], constants={"Scope": "quick" if tier == "quick" else "full"})
+    cases, n, r = vf.tlc_gen(work, "Gen_Markov", cfg, workers=1)
+    if n == 0:
+        raise vf.ToolingError("Gen_Markov produced no case")
+    v.add_mc(r, "gen:Markov")
+    # consecutive cases of one model re-initialise the same object: shuffle deterministically so that parameters really change
+    lines = open(cases).read().splitlines()
+    __import__("random").Random(seed).shuffle(lines)
+    open(cases, "w").write("\n".join(lines) + "\n")
+    trace = vf.drive(work, "markov", cases=cases, seed=seed, tier=tier)
+    res = vf.tlc_trace(work, "Trace_Markov", trace, cfg=write_cfg(work, "Trace_Markov.cfg", invariants=["Done"]), timeout=3000)
+    markov_account(v, trace, res)
+    v.assumptions += ["TLC and the CommunityModules evaluate TLA+ correctly", "java.lang.Math exp/pow accurate to 1e-12",
+                      "the protein exchangeabilities are read from the exported matrices of the code under test"]
+
+
+PIPELINES["C18"] = _c18
+SIMPLE_REPLAY["markov"] = ("Trace_Markov", markov_account)
